@@ -39,11 +39,25 @@ def model_grids(tier, mult4=False):
     return g + [(10.0, 100), (10.0, 101), (10.0, 1001), (8.0, 1001), (5.0, 101), (6.5, 1000), (0.2, 3), (10.0, 2001)]
 
 
-def pair_cases(tier, routes=ROUTES, mult4=False, api_labels=True, sweep_pot='polynomial'):
+def regular_at_zero(name):
+    """library entries whose potable-semantics value exists at r = 0 (targets whose grid starts at r = 0)"""
+    if name in M.py_callables():
+        return False
+    try:
+        X.ev_defn(M.lib_by_name(name)[0], 0.0, M.env())
+        return True
+    except (ZeroDivisionError, ValueError, OverflowError):
+        return False
+
+
+def pair_cases(tier, routes=ROUTES, mult4=False, api_labels=True, sweep_pot='polynomial', from_zero=False):
     """ordered (simplest first) list of case dicts: route, cutoff, nr, pots=[[a, b, libname], ...]"""
     lib = M.lib()
     names = [n for n, _d, _t in lib]
     pyn = sorted(M.py_callables())
+    if from_zero:
+        names = [n for n in names if regular_at_zero(n)]
+        pyn = []
     out = []
     G = model_grids(tier, mult4)
     # (1) every library potential alone x grid x route, rotating labels
@@ -57,6 +71,7 @@ def pair_cases(tier, routes=ROUTES, mult4=False, api_labels=True, sweep_pot='pol
                 out.append(dict(route=route, cutoff=cutoff, nr=nr, pots=[[a, b, n]]))
     # (2) ordered pairs of potentials, label pairs incl. reversed / repeated species
     sub = ['buck', 'tworange', 'custom', 'table', 'spline_exp', 'py_plain'] if tier == 'quick' else names + pyn
+    sub = [n for n in sub if n in names + pyn]
     G2 = G[:3] if tier == 'quick' else G[:4] + G[-6:]
     labsets = [[('A', 'B'), ('B', 'A')], [('O', 'O'), ('Si', 'O')], [('A', 'A'), ('B', 'B')], [('U4+', 'Mg_c'), ('Mg_c', 'Mg_c')]]
     for (cutoff, nr) in G2:
@@ -75,6 +90,8 @@ def pair_cases(tier, routes=ROUTES, mult4=False, api_labels=True, sweep_pot='pol
     lab3 = [('A', 'A'), ('A', 'B'), ('B', 'B')]
     for (cutoff, nr) in (G2[:2] if tier == 'quick' else G2):
         for tr in triples:
+            if any(t not in names + pyn for t in tr):
+                continue
             for perm in itertools.permutations(range(3)):
                 for route in routes:
                     out.append(dict(route=route, cutoff=cutoff, nr=nr,
@@ -126,6 +143,9 @@ def api_able(n):
 _cfg_callable_cache = {}
 
 
+FORCE_CFG = [False]   # targets whose grid starts at r = 0: every library callable is built by the config machinery
+
+
 def callable_for(name):
     """fresh Python callable for library entry `name`: Python-API composition where one exists, otherwise the
     callable the config machinery builds for the potable text (hybrid route)"""
@@ -133,7 +153,7 @@ def callable_for(name):
     if name in pyc:
         return pyc[name][0](), 'api'
     d, t = M.lib_by_name(name)
-    if 'api' in t:
+    if 'api' in t and not FORCE_CFG[0]:
         return R.api_defn(d), 'api'
     ini = M.pair_ini('LAMMPS', [('X', 'Y', d)], 5.0, 6)
     tab = R.config_read(ini)
@@ -146,7 +166,7 @@ def build_objs(pots):
 
 
 def semantics(name, route):
-    if route in ('cls', 'wp') and api_able(name):
+    if route in ('cls', 'wp') and api_able(name) and not (FORCE_CFG[0] and name not in M.py_callables()):
         return 'api'
     return 'cfg'
 
